@@ -19,7 +19,7 @@ LEVEL = "exploration"
 RULE = (
     "grid: |psi| x arg psi x mu x epsilon x (Laplacian action) per call, one call family per (gamma, u, dt); zone A (discriminant clearly positive) points are "
     "answered as one batch and checked; each zone C (clearly negative) point is submitted alone and embedded among zone A points and must be refused; "
-    "zone B (|disc| <= 1e-9 b^2) accepts either answer. recorded: every call made inside driven adaptive runs, and every step as a whole (the answer of adaptive_euler_step must solve the equation for the time step it reports, retries included). "
+    "zone B (|disc| <= 1e-9 b^2) accepts either answer. recorded: every call made inside driven adaptive runs, and every step as a whole (the answer of adaptive_euler_step must solve the equation for the time step it reports, retries included), and in runs with a time-dependent disorder parameter the epsilon entering each step is the user's function at that step's time. "
     "Non-trivial = point with psi != 0 and non-zero Laplacian action or mu; distinct = grid point (gamma,u,dt,psi,mu,eps,lap)."
 )
 ASSUMPTIONS = [
@@ -32,8 +32,8 @@ TOLERANCES = {"residual": 1e-12, "modulus": 1e-10, "root": 1e-9, "zone": 1e-9}
 
 def bound(tier):
     return {
-        "quick": "|psi| in {0,1e-8,0.1,0.5,1,1.5,3} x 4 phases x mu {0,+-0.3,+-50} x eps {-1,0,0.5,1} x 9 Laplacian actions x gamma {0,0.1,1,10,100} x u {0.5,1,5.79} x dt 1e-10..1e-1 (10 decades); 6 recorded runs",
-        "thorough": "same + |psi| in {1e-100,1e-160,1e-30}, dt up to 10, 17 Laplacian actions, 8 phases; 24 recorded runs",
+        "quick": "|psi| in {0,1e-8,0.1,0.5,1,1.5,3} x 4 phases x mu {0,+-0.3,+-50} x eps {-1,0,0.5,1} x 9 Laplacian actions x gamma {0,0.1,1,10,100} x u {0.5,1,5.79} x dt 1e-10..1e-1 (10 decades); 8 recorded runs (field, current, time-dependent epsilon vectorised and per site)",
+        "thorough": "same + |psi| in {1e-100,1e-160,1e-30}, dt up to 10, 17 Laplacian actions, 8 phases; 48 recorded runs (4 drives x 3 dt_init x 2 gamma x 2 u)",
     }[tier]
 
 
@@ -50,8 +50,12 @@ def cases(tier, seed):
     dts = [10.0**k for k in range(-10, 0)] + ([1.0, 10.0] if tier == "thorough" else [])
     for g, u, dt in itertools.product(GAMMAS, US, dts):
         out.append(dict(fam="grid", gamma=g, u=u, dt=dt, tier=tier))
-    nrec = 6 if tier == "quick" else 24
-    recs = list(itertools.product(("field", "current"), (0.5, 1.0, 2.0), (10.0, 1.0), (5.79, 1.0)))[:nrec]
+    drives = ("field", "current", "eps_t", "eps_t_loop")
+    if tier == "quick":
+        recs = [("field", 0.5, 10.0, 5.79), ("field", 1.0, 1.0, 1.0), ("current", 0.5, 10.0, 5.79), ("current", 2.0, 1.0, 5.79), ("field", 2.0, 10.0, 1.0), ("current", 1.0, 1.0, 1.0),
+                ("eps_t", 0.5, 10.0, 5.79), ("eps_t_loop", 1.0, 1.0, 5.79)]
+    else:
+        recs = list(itertools.product(drives, (0.5, 1.0, 2.0), (10.0, 1.0), (5.79, 1.0)))
     for drive, dti, g, u in recs:
         out.append(dict(fam="recorded", drive=drive, dt_init=dti, gamma=g, u=u))
     return out
@@ -252,7 +256,21 @@ def run_recorded(case):
     dev = tdgl.Device(dev.name, layer=tdgl.Layer(coherence_length=1.0, london_lambda=2.0, thickness=0.1, gamma=case["gamma"], u=case["u"]),
                       film=dev.film, terminals=list(dev.terminals), probe_points=dev.probe_points)
     dev.mesh = drivers.tiny(2, terminals=(case["drive"] == "current")).mesh
-    kw = {"applied_vector_potential": 1.6} if case["drive"] == "field" else {"applied_vector_potential": 0.8, "terminal_currents": {"source": 12.0, "drain": -12.0}}
+    kw = {"applied_vector_potential": 1.6} if case["drive"] != "current" else {"applied_vector_potential": 0.8, "terminal_currents": {"source": 12.0, "drain": -12.0}}
+    eps_user = None
+    if case["drive"] == "eps_t":
+        # time-dependent disorder parameter, vectorised signature: eps(r, t) over all sites at once
+        def eps_user(r, *, t, vectorized=True):
+            r = np.atleast_2d(r)
+            return 1.0 - (0.3 + 0.1 * np.sin(0.7 * t)) * np.exp(-((r[:, 0] - 0.4) ** 2 + (r[:, 1] + 0.2) ** 2))
+
+        kw["disorder_epsilon"] = eps_user
+    elif case["drive"] == "eps_t_loop":
+        # the same, called site by site (one position, scalar result)
+        def eps_user(r, *, t):
+            return float(1.0 - (0.3 + 0.1 * np.sin(0.7 * t)) * np.exp(-((r[0] - 0.4) ** 2 + (r[1] + 0.2) ** 2)))
+
+        kw["disorder_epsilon"] = eps_user
     opts = tdgl.SolverOptions(solve_time=4.0, dt_init=case["dt_init"], dt_max=2 * case["dt_init"], adaptive=True, adaptive_window=2,
                               adaptive_time_step_multiplier=0.5, max_solve_retries=14, progress_interval=10**9)
     solver = tdgl.TDGLSolver(dev, opts, **kw)
@@ -277,10 +295,18 @@ def run_recorded(case):
         lap = np.asarray(solver.operators.psi_laplacian @ pin)
         n0 = len(calls)
         out = orig_step(step, psi, abs_sq_psi, mu, epsilon, dt)
-        steps.append((pin, mun, epsn, float(dt), lap, np.array(out[0]), np.array(out[1]), float(out[2]), len(calls) - n0))
+        steps.append((pin, mun, epsn, float(dt), lap, np.array(out[0]), np.array(out[1]), float(out[2]), len(calls) - n0, clock["time"]))
         return out
 
     solver.adaptive_euler_step = rec_step
+    clock = {"time": None}
+    orig_update = solver.update
+
+    def rec_update(state, running_state, dt, **kw_):
+        clock["time"] = float(state["time"])  # the time the caller attaches to this step
+        return orig_update(state, running_state, dt, **kw_)
+
+    solver.update = rec_update
     try:
         drivers.hand_step(solver, 20)
     except RuntimeError as exc:
@@ -304,8 +330,16 @@ def run_recorded(case):
                 continue
             keep = disc > TOLERANCES["zone"] * b * b
             check_answer(res, out[0][keep], out[1][keep], psi[keep], mu[keep], eps[keep], lap[keep], g, u, dt, {k: np.asarray(v)[keep] for k, v in ref.items()}, ctx)
-    for psi, mu, eps, dt_in, lap, p_out, x_out, dt_out, ncalls in steps:
+    sites = np.asarray(solver.sites)
+    for psi, mu, eps, dt_in, lap, p_out, x_out, dt_out, ncalls, t_step in steps:
         res.count("recorded_steps")
+        if eps_user is not None:
+            # the disorder parameter entering step n is the user's function at the time of step n
+            want_eps = eps_user(sites, t=t_step) if case["drive"] == "eps_t" else np.array([eps_user(r, t=t_step) for r in sites])
+            res.count("time_dependent_epsilon_steps")
+            if np.abs(eps - want_eps).max() > 1e-13:
+                res.violate("epsilon-is-not-the-users-function-at-the-step-time", vectorized=bool(case["drive"] == "eps_t"),
+                            detail={"t": t_step, "max_abs_diff": float(np.abs(eps - want_eps).max())})
         if ncalls > 1:
             res.count("recorded_steps_with_retries")
         ref = psi_update(psi, mu, eps, g, u, dt_out, lap)
